@@ -41,8 +41,14 @@ def units_case(draw):
     disk = draw(st.integers(0, 4096)) * unit
     cpu = draw(st.integers(0, 6400))
     styles = draw(st.lists(st.integers(0, 11), min_size=2, max_size=4))
+    # quantities that are not a whole number of MB: they floor, as
+    # utils.megabytes documents (KB // 1024)
+    odd = draw(st.lists(st.tuples(
+        st.sampled_from(['K', 'k', 'KB', 'MB', 'GB', 'M', 'G']),
+        st.integers(1, 5000)), max_size=3))
     return {'engine': 'units', 'mem': mem, 'disk': disk, 'cpu': cpu,
-            'styles': styles, 'drop': draw(st.sampled_from(
+            'styles': styles, 'odd': [list(item) for item in odd],
+            'drop': draw(st.sampled_from(
                 [None, None, None, 'memory', 'cpu', 'disk']))}
 
 
@@ -89,6 +95,25 @@ def execute_units(case, stats):
                     'megabytes(%r) = %r, size_to_bytes = %r, quantity is %r '
                     'MB' % (record['memory'], mbytes, nbytes, case['mem']))
         seen.append(canon_record(record))
+    scale = {'K': 1024, 'M': 1024 ** 2, 'G': 1024 ** 3,
+             'KB': 1000, 'MB': 1000 ** 2, 'GB': 1000 ** 3}
+    for suffix, number in case.get('odd', []):
+        text = '%d%s' % (number, suffix)
+        nbytes = number * scale[suffix.upper()]
+        expect = (nbytes // 1024) // 1024
+        for key in ('memory', 'disk'):
+            try:
+                got = loader.resources({key: text})
+            except Exception as err:  # pylint: disable=broad-except
+                raise Violation('c01.units.rejected',
+                                'resources(%r) raised %r' % ({key: text}, err))
+            idx = 0 if key == 'memory' else 2
+            if got[idx] != expect:
+                raise Violation(
+                    'c01.units.value',
+                    'resources(%r)[%s] = %r; %s is %d bytes = %d whole MB' %
+                    ({key: text}, key, got[idx], text, nbytes, expect))
+        stats.count('units:odd-spelling')
     stats.count('engine:units')
     return len(set(seen)) >= 2 and any(ref)
 
